@@ -57,6 +57,21 @@ func c08(e *Env) {
 	cfg.WClock = 0
 	cache := newSimCache()
 	cfg.PreparedCache = cache
+	// Half of the runs use the shipped configuration instead: no cache is configured and the proxy
+	// creates its default one (about 390 000 entries, so nothing is ever evicted in a run); the
+	// statement is then in the cache from the moment its PREPARE was answered through the proxy.
+	defaultCache := c.Choose("defaultcache", 2) == 1
+	inDefault := map[string]bool{}
+	if defaultCache {
+		cfg.PreparedCache = nil
+		e.Res.Stats["probe.c08.default_prepared_cache"]++
+	}
+	cached := func(id string) bool {
+		if defaultCache {
+			return inDefault[id]
+		}
+		return cache.has(id)
+	}
 	shape := c.Choose("c08shape", 4) // 0 plain, 1 restarts, 2 late joiners, 3 re-prepare failures
 	p := fwdParams{
 		Hosts:        2 + c.Choose("hosts", 3),
@@ -80,9 +95,12 @@ func c08(e *Env) {
 		if rep.Frame == nil {
 			return
 		}
+		if pr, ok := rep.Frame.Body.Message.(*message.PreparedResult); ok {
+			inDefault[hex.EncodeToString(pr.PreparedQueryId)] = true
+		}
 		if up, ok := rep.Frame.Body.Message.(*message.Unprepared); ok {
 			id := hex.EncodeToString(up.Id)
-			if cache.has(id) {
+			if cached(id) {
 				comp := req.Client.Compression
 				if comp == "" {
 					comp = "none"
